@@ -299,6 +299,16 @@ type Layout struct {
 	// that RenderYAMLStyled writes by hand: block scalars, multi-line plain and
 	// quoted scalars (see yamlstyle.go). RenderYAML ignores it.
 	YAMLStyles map[string]ScalarStyle `json:"yaml_styles,omitempty"`
+	// YAMLOrder gives, per mapping of the YAML rendering (path as in YAMLSite.Path: "" is the document,
+	// "requests[1]", "requests[0].postprocessors[2]", "scenarios[0]", ...), the order its keys are written in
+	// (see yamlorder.go). Keys it does not name follow in the default order; mappings it does not name are
+	// written as the documentation's examples write them. The order of keys has no meaning in YAML.
+	YAMLOrder map[string][]string `json:"yaml_order,omitempty"`
+	// YAMLTail / HCLTail: how the file ends (TailNoNewline, TailBlankLines, TailComment; "" = as rendered, one
+	// final newline). RenderYAMLStyled keeps a YAML tail only where yaml.v2 reads the file as before (a block
+	// scalar at the end of the document owns the final line breaks); RenderYAML ignores it.
+	YAMLTail string `json:"yaml_tail,omitempty"`
+	HCLTail  string `json:"hcl_tail,omitempty"`
 }
 
 // Model is one scenario description.
